@@ -69,9 +69,10 @@ def run(repo, tier) -> Result:
     res.rule("R-TRUTH", floor=2)
     res.rule("R-WIRE", floor=100)
     check_div("C09", res, repo, cas, signs)
-    from ..rules_calc import check_nan
+    from ..rules_calc import check_gap, check_nan
 
     check_nan("C09", res, repo, cas)
+    check_gap("C09", res, repo, cas)
     check_sqrt("C09", res, repo, cas, signs)
     check_truth("C09", res, repo, cas, signs)
     check_wire("C09", res, repo, cas)
